@@ -230,6 +230,9 @@ def match_prefix_variants(rule):
     return [x for x in out if x != rule]
 
 
+SPECIAL_EDITS = ("respell", "match_prefix", "respell_key", "tagged_spelling", "add_member")
+
+
 def single_edits(signed, rng, limit=None):
     """enumerate single-field edits of a signed document: yields (description, new_doc).
     Every leaf and every container of the document is visited (the enumerator walks the
@@ -250,6 +253,9 @@ def single_edits(signed, rng, limit=None):
             edits.append((path, "set", mutate_string(v, rng)))
             for alt in respellings(v):
                 edits.append((path, "respell", alt))
+            if path[-1] in ("scheme", "keytype"):
+                # the tagged spelling of an enumeration value the wire format also knows as a plain string
+                edits.append((path, "tagged_spelling", {"Unknown": v}))
         elif isinstance(v, list):
             if v and v[0] == "MATCH" and all(isinstance(x, str) for x in v):
                 for alt in match_prefix_variants(v):
@@ -262,6 +268,15 @@ def single_edits(signed, rng, limit=None):
             else:
                 edits.append((path, "append", None))
         elif isinstance(v, dict):
+            if path and path[-1] in ("materials", "products", "subject"):
+                # an additional artifact: without any digest, with one
+                nk = rng.choice(["added.bin", "src/added.c", "zz/new"])
+                if nk not in v:
+                    edits.append((path, "add_member", (nk, {})))
+                    edits.append((path, "add_member", (nk, digest(0xAD))))
+            elif path and path[-1] in ("byproducts", "environment", "keyval"):
+                if "zz-added" not in v:
+                    edits.append((path, "add_member", ("zz-added", "x")))
             if v:
                 edits.append((path, "del_key", rng.choice(sorted(v))))
                 edits.append((path, "rename_key", rng.choice(sorted(v))))
@@ -274,16 +289,18 @@ def single_edits(signed, rng, limit=None):
         if isinstance(parent, dict):
             edits.append((path, "delete_member", None))
     if limit is not None and len(edits) > limit:
-        special = [e for e in edits if e[1] in ("respell", "match_prefix", "respell_key")]
-        rest = [e for e in edits if e[1] not in ("respell", "match_prefix", "respell_key")]
+        special = [e for e in edits if e[1] in SPECIAL_EDITS]
+        rest = [e for e in edits if e[1] not in SPECIAL_EDITS]
         keep = rng.sample(special, min(len(special), max(1, limit // 3))) if special else []
         edits = keep + rng.sample(rest, min(len(rest), limit - len(keep)))
         rng.shuffle(edits)
     for path, kind, arg in edits:
         d = copy.deepcopy(signed)
         try:
-            if kind in ("set", "respell", "match_prefix"):
+            if kind in ("set", "respell", "match_prefix", "tagged_spelling"):
                 set_at(d, path, arg)
+            elif kind == "add_member":
+                get_at(d, path)[arg[0]] = copy.deepcopy(arg[1])
             elif kind == "del_elem":
                 del get_at(d, path)[arg]
             elif kind == "dup_elem":
